@@ -20,6 +20,7 @@ EXPLANATION = (
     "skipped, (TRUE key, observed false) and (FALSE key, observed true) raise InconsistentEvidenceError, and add_evidence is reached only by the "
     "remaining rows; Z4 evaluate() collects exactly the query nodes and reports them through evaluator.evaluate. The distribution semantics itself "
     "is not decided."
+    " Added after seed round 6: Z5 set_evidence of the weight-based evaluators rejects evidence exactly when the atom's current weight on the observed polarity is the semiring zero (scenario table; to_evidence() results folded as the constants they are)."
 )
 TECHNIQUE = "static analysis: sibling guard rule over the evaluator hierarchy, transformation-graph rules, decision-table extraction"
 LEVEL_TEXT = EXPLANATION
